@@ -362,7 +362,8 @@ def rule_pool_shape(chk, repo, rid='C10.c'):
                 and st.value.func.attr == 'add' and unparse(st.value.func.value) == POOLN and len(st.value.args) == 1]
         all_adds = [c for c in G.find_calls(f.node, 'add') if unparse(c.func.value) == POOLN]
         texts = sorted(ex(st, st.value.args[0], ('str', 'replace')) for st in adds)
-        ok = len(adds) == 2 and len(all_adds) == 2 and texts == sorted([f'str({v}.seq)', f"str({v}.seq).replace('I', 'L')"])
+        ok = len(adds) == 2 and len(all_adds) == 2 and texts == sorted([f'str({v}.seq)', f"str({v}.seq).replace('I', 'L')"]) \
+            and not any(isinstance(x, (ast.Continue, ast.Break, ast.Return)) for x in ast.walk(ploops[0]))          # nothing skips a peptide once digested
     chk.ob(rid, 'each peptide is added together with its I->L image', f.where, ok,
            f"pool.add calls {texts} are not the peptide and its I->L image added for every digested peptide", key=POOL + '::il-pairing', fn=f.qual)
     # returns the pool
